@@ -94,8 +94,11 @@ Files == UNION { UNION { UNION { Variants(Forms[f], g, tr) : tr \in (IF IsMulti(
 (* two statements sharing a source line (no newline in the gap between them), and `else` already on a line of its own *)
 Ident == St("insn", "lda", <<P("foo", "t", W)>>, <<>>, <<>>, T0)
 SameLineFiles == { [body |-> <<a, [b EXCEPT !.lead = W]>>, eof |-> N1] : a \in {Ident, Forms[12], Forms[6]}, b \in {Forms[1], Forms[12], Forms[4], Forms[6]} }
+(* a statement that shares its line with the closing brace of the previous statement's block: labelled block, bare block,
+   .if/else, .loop, .macro, .test, .segment, .import with block, .define map *)
+AfterBraceFiles == { [body |-> <<Forms[f], [b EXCEPT !.lead = W]>>, eof |-> N1] : f \in {5, 7, 8, 9, 11, 23, 25, 30, 31}, b \in {Forms[1], Forms[4]} }
 ElseFiles == { [body |-> <<[Forms[8] EXCEPT !.ge = g]>>, eof |-> N1] : g \in {W, N1 \o W, N1 \o <<Block1>> \o N1} }
-AllFiles == Files \cup SameLineFiles \cup ElseFiles
+AllFiles == Files \cup SameLineFiles \cup AfterBraceFiles \cup ElseFiles
 OptGrid == { [mcase |-> SubSeq(cp, 1, 1), rcase |-> SubSeq(cp, 2, 2), brace |-> b, indent |-> i, lm |-> m, align |-> a, cm |-> c]
              : cp \in CasePairs, b \in {"same", "new"}, i \in Indents, m \in Margins, a \in {"l", "r"}, c \in CodeMargins }
 
@@ -111,7 +114,7 @@ StartJoin == /\ phase = "visit" /\ i = Len(file.body) + 2 /\ phase' = "join" /\ 
 JoinChunk == /\ phase = "join" /\ k <= Len(vst.ch)
              /\ js' = JoinStep(js, vst.ch, k, opts) /\ k' = k + 1
              /\ UNCHANGED <<file, opts, phase, vst, i>>
-Emit == opts.indent = ReplayIndent => PrintT(<<"CASE", ToJson([file |-> file, opts |-> opts, text |-> JoinNl(js.res)])>>)
+Emit == opts.indent = ReplayIndent => PrintT(<<"CASE", ToJson([file |-> file, opts |-> opts, text |-> JoinNl(js.res), special |-> file \in SameLineFiles \cup AfterBraceFiles \cup ElseFiles])>>)
 Done == /\ phase = "join" /\ k = Len(vst.ch) + 1 /\ phase' = "done" /\ Emit /\ UNCHANGED <<file, opts, vst, i, js, k>>
 Next == VisitTok \/ StartJoin \/ JoinChunk \/ Done
 Spec == Init /\ [][Next]_vars
